@@ -43,5 +43,10 @@ def run(report, tier):
                 bounds=f"{len(H.STATES)} final states x 6 permutations; all {len(H.EVT)} PDG ids of the EvtGen table",
                 functions=FUNCS, timeout=480, sample={"ids": [421, -321, 421]}),
     ]
+    hs.append(Harness(name="counts", module="harness.c11", body="body_counts", sig="sel: int, m0: int, m1: int, m2: int", n_sel=H.N_COUNTS,
+                      claim="a final state counts multiplicities: entries with a count <= 0 are dropped, the length is the sum of the counts, "
+                            "adding two final states adds the counts per particle and leaves the operands unchanged",
+                      bounds="4 name triples", symbolic="three multiplicities: any int (unbounded, also zero and negative)", functions=FUNCS,
+                      shards=4, timeout=300, sample={"names": ["K+", "K-", "pi0"], "counts": "symbolic"}))
     for h in hs:
         chrun.run_harness(report, h)
